@@ -355,6 +355,9 @@ func (r *Repo) Eval() (outs map[string][]OutEnt, ok map[string]bool) {
 			if t.ExecOut && len(es) == 1 && !es[0].Node.Dir {
 				es[0].Node.Exec = true
 			}
+			if t.ExecOut && t.Cmd == "dirn" {
+				es[0].Node.Children[0].Exec = true
+			}
 			outs[t.Label()] = es
 		}
 	}
@@ -481,6 +484,9 @@ func (t *RTarget) ShellCmd() string {
 	}
 	if t.ExecOut && t.Cmd != "multi" && t.Cmd != "dirk" && t.Cmd != "dirn" && t.Cmd != "defs" {
 		body += ` && chmod +x "$OUT"`
+	}
+	if t.ExecOut && t.Cmd == "dirn" {
+		body += ` && chmod +x "$OUT/all"` // executable bit of a file *inside* a directory output
 	}
 	c += body + "; L E"
 	if t.Salt != "" {
